@@ -312,6 +312,43 @@ def impl(case):
         res["class_size"] = -1
         res["L_min"] = L_min
         res["L_pred"] = [float(l.dot(g)) for l, (_, g) in zip(lam, re)]
+    # ---- a USER-SUPPLIED grid: columns picked / reordered from the generated one and relabelled with arbitrary
+    # integers; column labels must never be used as positions into the per-point records
+    import hashlib as _h, json as _j
+    hv = int(_h.sha1(_j.dumps({k_: v_ for k_, v_ in case.items() if not str(k_).startswith("_")},
+                                sort_keys=True, default=str).encode()).hexdigest(), 16)
+    if hv % 4 == 1 and len(est.lambda_vecs_.columns) >= 3:
+        cols = list(est.lambda_vecs_.columns)
+        k = len(cols)
+        order = [cols[(i * 2 + 1) % k] for i in range(k)]
+        order = list(dict.fromkeys(order))[: max(3, min(k, 6))]
+        labels = [(7 * (i + 2)) % 23 + (3 if i % 2 else 0) for i in range(len(order))]
+        labels = [l + 31 * j for j, l in enumerate(labels)] if len(set(labels)) != len(labels) else labels
+        g2 = est.lambda_vecs_[order].copy()
+        g2.columns = labels
+        base2 = CellMeanRegressor() if reg else ExactLearner()
+        kw2 = {}
+        if case.get("wrap") == "pipeline":
+            from sklearn.pipeline import Pipeline
+            from sklearn.preprocessing import FunctionTransformer
+            base2 = Pipeline([("id", FunctionTransformer()), ("clf", base2)])
+            kw2["sample_weight_name"] = "clf__sample_weight"
+        est2 = GridSearch(base2, _moment(case), **kw2, grid=g2,
+                          constraint_weight=float(Fraction(case["constraint_weight"])))
+        try:
+            est2.fit(X, y, sensitive_features=sf)
+            w_ = float(Fraction(case["constraint_weight"]))
+            losses = [(1 - w_) * float(o) + w_ * float(est2.gammas_.iloc[:, i].max())
+                      for i, o in enumerate(est2.objectives_)]
+            bi = est2.best_idx_
+            preds2 = [_fl(np.asarray(p.predict(X)).reshape(-1)) for p in est2.predictors_]
+            res["custom"] = {"labels": [int(l) for l in labels], "best_idx": int(bi), "losses": losses,
+                             "n": len(est2.predictors_), "preds": preds2,
+                             "predict": _fl(np.asarray(est2.predict(X)).reshape(-1)),
+                             "lambda_cols": [int(c) for c in est2.lambda_vecs_.columns],
+                             "lambdas_same": bool(np.allclose(est2.lambda_vecs_.values, g2.values))}
+        except Exception as e:  # noqa
+            res["custom"] = {"error": f"{type(e).__name__}: {e}"[:200], "labels": [int(l) for l in labels]}
     return res
 
 
@@ -405,6 +442,25 @@ def compare(case, out, model):
         cls = "raises-all-zero-sample-weights" if "at least one non-zero" in out["fit_error"] else "raises"
         return [(f"{PID}/{E}/fit/{cls}", f"fit raised {out['fit_error']}",
                  "fit trains one predictor per multiplier vector", "property")]
+    cu = out.get("custom")
+    if cu is not None:
+        if "error" in cu:
+            v.append((f"{PID}/{E}/custom-grid/raises", f"fit / predict with a user-supplied grid whose columns are "
+                      f"labelled {cu['labels']} raised {cu['error']}", "a user-supplied grid is used column by column",
+                      "property"))
+        else:
+            b_ = cu["best_idx"]
+            if not (0 <= b_ < cu["n"]) or cu["losses"][b_] > min(cu["losses"]) + 1e-9:
+                v.append((f"{PID}/{E}/custom-grid/best_idx-not-the-argmin",
+                          f"user-supplied grid with column labels {cu['labels']}: best_idx_={b_}, losses by position "
+                          f"{cu['losses']}", "best_idx_ is the POSITION of the minimum trade-off loss", "property"))
+            elif cu["predict"] != cu["preds"][b_]:
+                v.append((f"{PID}/{E}/custom-grid/predict-does-not-delegate",
+                          f"predict differs from predictors_[best_idx_={b_}] (labels {cu['labels']})",
+                          "predict delegates to the selected predictor", "property"))
+            if not cu["lambdas_same"] or cu["lambda_cols"] != cu["labels"]:
+                v.append((f"{PID}/{E}/custom-grid/lambda_vecs-differ", "lambda_vecs_ is not the supplied grid",
+                          "lambda_vecs_ holds the supplied vectors under their labels", "property"))
     gs = case["grid_size"]
     limit = float(Fraction(case["grid_limit"]))
     w = float(Fraction(case["constraint_weight"]))
